@@ -887,14 +887,10 @@ Definition kf_class (c : case) (s : res value) : option string :=
 Definition is_deep (c : case) : bool :=
   match run spec_q depth_safe c with RStack => true | _ => false end.
 
-Definition ok_tag (c : case) (s : res value) : string :=
-  match s with
-  | ROk _ => if is_deep c then "deep-value" else "value"
-  | _ => "error"
-  end.
-
-Definition judge_case (c : case) (o : fobs) : sx :=
-  let s := run spec_q (big_depth c) c in
+(* the decision rule, as a function of the specified outcome s and (lazily) the code model's
+   outcome, the depth test and the attribution *)
+Definition verdict (s : res value) (i : unit -> res value) (deep : unit -> bool)
+           (kc : unit -> option string) (o : fobs) : sx :=
   match s with
   | RArith => v_adv "arith"
   | RKind => v_adv "arm-kinds"
@@ -902,18 +898,18 @@ Definition judge_case (c : case) (o : fobs) : sx :=
   | RFuel => v_adv "fuel"
   | RStack => v_adv "fuel"
   | _ =>
-      if obs_is s o then v_ok (ok_tag c s)
+      if obs_is s o then
+        v_ok (match s with ROk _ => if deep tt then "deep-value" else "value" | _ => "error" end)
       else
         match o with
-        | FAbort => if is_deep c then v_kf "deep-recursion-abort" else v_bad "abort" (enc_res s)
+        | FAbort => if deep tt then v_kf "deep-recursion-abort" else v_bad "abort" (enc_res s)
         | _ =>
-            let i := run impl_q (big_depth c) c in
-            if res_eqb i s then v_bad "wrong-result" (enc_res s)
-            else if obs_is i o then
-              match i with
+            if res_eqb (i tt) s then v_bad "wrong-result" (enc_res s)
+            else if obs_is (i tt) o then
+              match i tt with
               | RKind => v_adv "arm-kinds"
               | RAdv w => v_adv w
-              | _ => match kf_class c s with
+              | _ => match kc tt with
                      | Some id => v_kf id
                      | None => v_bad "unattributed" (enc_res s)
                      end
@@ -921,6 +917,10 @@ Definition judge_case (c : case) (o : fobs) : sx :=
             else v_bad "wrong-result" (enc_res s)
         end
   end.
+
+Definition judge_case (c : case) (o : fobs) : sx :=
+  let s := run spec_q (big_depth c) c in
+  verdict s (fun _ => run impl_q (big_depth c) c) (fun _ => is_deep c) (fun _ => kf_class c s) o.
 
 Definition judge_fun (x : sx) : sx :=
   match x with
